@@ -38,16 +38,16 @@ var baseTrusted = []string{
 }
 
 type leanReport struct {
-	Skipped     bool           `json:"skipped,omitempty"`
-	BuildOK     bool           `json:"build_ok"`
-	FactsOK     bool           `json:"facts_ok"`
+	Skipped     bool                `json:"skipped,omitempty"`
+	BuildOK     bool                `json:"build_ok"`
+	FactsOK     bool                `json:"facts_ok"`
 	Theorems    map[string][]string `json:"theorems"` // theorem -> axioms
-	BadAxioms   []string       `json:"bad_axioms,omitempty"`
-	Forbidden   []string       `json:"forbidden_tokens,omitempty"`
-	Failures    []string       `json:"failures,omitempty"`
-	LeanChecker string         `json:"leanchecker,omitempty"`
-	WallS       float64        `json:"wall_s"`
-	FactsFile   string         `json:"facts_sha256"`
+	BadAxioms   []string            `json:"bad_axioms,omitempty"`
+	Forbidden   []string            `json:"forbidden_tokens,omitempty"`
+	Failures    []string            `json:"failures,omitempty"`
+	LeanChecker string              `json:"leanchecker,omitempty"`
+	WallS       float64             `json:"wall_s"`
+	FactsFile   string              `json:"facts_sha256"`
 }
 
 func sh(dir string, env []string, name string, args ...string) (string, error) {
@@ -95,9 +95,9 @@ func leanStage(p *PropDef, tier string) leanReport {
 		// 3. the property's theorems and the facts obligations
 		rep.FactsOK = true
 		if p.FactsOK {
-			if out, err := sh(leanDir, nil, "lake", "build", "Verif.Generated.FactsOK"); err != nil {
+			if out, err := sh(leanDir, nil, "lake", "build", "Verif.Generated.FactsOK."+p.ID); err != nil {
 				rep.FactsOK = false
-				rep.Failures = append(rep.Failures, "Verif.Generated.FactsOK no longer checks (a regenerated fact does not satisfy a theorem's hypothesis): "+truncate(lastLines(out, 30), 4000))
+				rep.Failures = append(rep.Failures, "Verif.Generated.FactsOK."+p.ID+" no longer checks (a regenerated fact does not satisfy a theorem's hypothesis): "+truncate(lastLines(out, 30), 4000))
 			}
 		}
 		for _, m := range p.LeanModules {
@@ -485,7 +485,7 @@ func writeEvidence(ctx *Ctx, p *PropDef, lean leanReport, results []StreamResult
 		"samples":             samples,
 		"obligations":         obligations,
 		"discharged":          discharged,
-		"checker_cmd":         "cd /verif/lean && lake build " + strings.Join(p.LeanModules, " ") + " Verif.Generated.FactsOK && lake env lean Verif/Audit/" + p.ID + ".lean   (thorough: lake env leanchecker <module>)",
+		"checker_cmd":         "cd /verif/lean && lake build " + strings.Join(p.LeanModules, " ") + " Verif.Generated.FactsOK." + p.ID + " && lake env lean Verif/Audit/" + p.ID + ".lean   (thorough: lake env leanchecker <module>)",
 		"trusted_base":        append(append([]string{}, baseTrusted...), p.TrustedBase...),
 		"theorems":            thms,
 		"lean":                lean,
